@@ -394,15 +394,33 @@ impl TextSelection {
     /// Low-level method to get a textselection inside the current one
     /// Note: this is a low level method and will always return an unbound textselection!
     pub fn textselection_by_offset(&self, offset: &Offset) -> Result<TextSelection, StamError> {
-        let (begin, end) = (
-            self.begin + self.beginaligned_cursor(&offset.begin)?,
-            self.begin + self.beginaligned_cursor(&offset.end)?,
-        );
-        Ok(TextSelection {
-            intid: None,
-            begin,
-            end,
-        })
+        let textlen = self.end() - self.begin();
+        let begin = self.beginaligned_cursor(&offset.begin)?;
+        let end = self.beginaligned_cursor(&offset.end)?;
+        if begin > textlen {
+            Err(StamError::CursorOutOfBounds(
+                Cursor::BeginAligned(begin),
+                "Begin cursor is out of bounds",
+            ))
+            //note: we do > instead of >= because we allow a zero-size textselection at the very end (begin == end == textlen)
+        } else if end > textlen {
+            Err(StamError::CursorOutOfBounds(
+                Cursor::BeginAligned(end),
+                "End cursor is out of bounds",
+            ))
+        } else if end < begin {
+            Err(StamError::InvalidOffset(
+                offset.begin,
+                offset.end,
+                "End must be greater than or equal to begin",
+            ))
+        } else {
+            Ok(TextSelection {
+                intid: None,
+                begin: self.begin + begin,
+                end: self.begin + end,
+            })
+        }
     }
 
     /// Convert this text selection to its higher level API counterpart
